@@ -220,12 +220,12 @@ func c13Components(c psatoken.IClaims, m *MClaims) string {
 }
 
 func TestC13_ClaimErrors(t *testing.T) {
-	st := NewStats("C13", "TestC13_ClaimErrors", "rapid: each claim / component field x each way of being wrong, alone (exact class) and combined (class of some offending claim), on claims-sets obtained as struct literals, via the per-type CBOR unmarshal, and via setters called with invalid values; errors.Is against the five sentinels must hold for the expected class and for no other. Non-trivial = the error travels through >= 1 wrapping layer (component inside list, getter inside Validate); distinct = (route, class vector)")
-	st.Require = []string{"route=literal", "route=unmarshal", "route=setter", "single", "combined", "component-defect", "foreign-component", "degraded-in-place", "null-component-entry", "setter-on-held-value"}
+	st := NewStats("C13", "TestC13_ClaimErrors", "rapid: each claim / component field x each way of being wrong, alone (exact class) and combined (class of some offending claim), on claims-sets obtained as struct literals, via the per-type CBOR unmarshal, and via setters called with invalid values; instances of DERIVED profiles holding claims that declare another profile (the stock name of their own base, the other stock profile, an unknown name): wrong-profile class from GetProfile and Validate; errors.Is against the five sentinels must hold for the expected class and for no other. Non-trivial = the error travels through >= 1 wrapping layer (component inside list, getter inside Validate); distinct = (route, class vector)")
+	st.Require = []string{"route=literal", "route=unmarshal", "route=setter", "single", "combined", "component-defect", "foreign-component", "degraded-in-place", "null-component-entry", "setter-on-held-value", "route=derived-mismatch"}
 	defer st.Flush(t)
 	rapid.Check(t, func(t *rapid.T) {
 		p := drawProf(t)
-		route := rapid.SampledFrom([]string{"literal", "literal", "unmarshal", "unmarshal", "setter", "degraded"}).Draw(t, "route")
+		route := rapid.SampledFrom([]string{"literal", "literal", "unmarshal", "unmarshal", "setter", "degraded", "derived-mismatch"}).Draw(t, "route")
 		if route == "setter" {
 			c, err := psatoken.NewClaims(p.Name())
 			if err != nil {
@@ -342,6 +342,69 @@ func TestC13_ClaimErrors(t *testing.T) {
 				return
 			}
 			st.Case("", "route=setter")
+			return
+		}
+		if route == "derived-mismatch" {
+			// an instance of a profile DERIVED from p (own name, claims type
+			// embedding the base type) holding claims that declare ANOTHER
+			// profile - the stock name of its own base, the other stock
+			// profile, an unknown name: a profile mismatch, whatever the name
+			derived := map[Prof]string{P1: ExtP1Name, P2: ExtP2Name}[p]
+			declared := rapid.SampledFrom([]string{p.Name(), p.Name(), map[Prof]string{P1: P2Name, P2: P1Name}[p], "http://example.com/verif/unknown", derived}).Draw(t, "declared")
+			mv := GenValid(t, p, false)
+			mv.Profile = sp(declared)
+			var c psatoken.IClaims
+			if p == P1 {
+				c = newExtP1Claims()
+			} else {
+				c = newExtP2Claims()
+			}
+			how := rapid.SampledFrom([]string{"unmarshal", "field"}).Draw(t, "how")
+			if how == "unmarshal" {
+				type cu interface{ UnmarshalCBOR([]byte) error }
+				if err := c.(cu).UnmarshalCBOR(mv.WireBytes()); err != nil {
+					st.Case("", "undecodable")
+					return
+				}
+			} else {
+				lit, ok := mv.BuildLiteral()
+				if !ok {
+					st.Case("", "unrepresentable")
+					return
+				}
+				switch cc := c.(type) {
+				case *ExtP1Claims:
+					canon := cc.P1Claims.CanonicalProfile
+					cc.P1Claims = *lit.(*psatoken.P1Claims)
+					cc.P1Claims.CanonicalProfile = canon
+				case *ExtP2Claims:
+					canon := cc.P2Claims.CanonicalProfile
+					cc.P2Claims = *lit.(*psatoken.P2Claims)
+					cc.P2Claims.CanonicalProfile = canon
+				}
+			}
+			_, gerr := c.GetProfile()
+			if declared == derived {
+				if gerr != nil {
+					t.Fatalf("C13 violated: a %s instance declaring its own name %q: GetProfile says %v", derived, declared, gerr)
+				}
+				st.Case("", "route=derived-mismatch")
+				return
+			}
+			if gerr == nil {
+				t.Fatalf("C13 violated: an instance of the derived profile %q holds claims declaring %q (%s): GetProfile reports no error (a profile mismatch yields the wrong-profile class)", derived, declared, how)
+			}
+			if got := classSet(gerr); len(got) != 1 || !got[EProfile] {
+				t.Fatalf("C13 violated: an instance of the derived profile %q holds claims declaring %q (%s): GetProfile error %q classified %s, want wrong-profile", derived, declared, how, gerr, clsSetString(got))
+			}
+			verr := c.Validate()
+			if verr == nil {
+				t.Fatalf("C13 violated: an instance of the derived profile %q holds claims declaring %q (%s): Validate() reports no error", derived, declared, how)
+			}
+			if got := classSet(verr); !got[EProfile] {
+				t.Fatalf("C13 violated: an instance of the derived profile %q holds claims declaring %q (%s): Validate() error %q classified %s, want wrong-profile among them", derived, declared, how, verr, clsSetString(got))
+			}
+			st.Case("derived-mismatch|"+how+"|"+declared+"|"+mv.ClassVector(), "route=derived-mismatch", "single")
 			return
 		}
 		if route == "degraded" {
